@@ -39,7 +39,7 @@ def same_obs(a, b):
     return False
 
 
-LEAKS = (("PDefLhs", "tco-def-lhs"), ("PSetLhs", "tco-def-lhs"), ("PIncludeNonLastFile", "tco-include-nonlast"))
+LEAKS = ()   # (position name, known-finding id): none open; tco-def-lhs and tco-include-nonlast were repaired (0c81737, 9d37ebd)
 
 
 def leak_id(raw):
